@@ -10,8 +10,31 @@ package congestion
 //   - class "adversarial": by arbitrary legal event sequences (sent / acked /
 //     lost / RTT sample / MTU raise / idle) with arbitrary sizes and times;
 //   - class "extreme": the adversarial driver with absurd RTT samples (sub-µs,
-//     hours .. days) and clock values near the end of the int64 range; every
-//     signature of this class is prefixed "extreme: ".
+//     hours .. days), jumbo datagram sizes (MTU raises beyond
+//     MaxPacketBufferSize, which the connection never performs) and clock values
+//     near the end of the int64 range; every signature of this class is
+//     prefixed "extreme: ".
+//
+// Oracles, evaluated after every event (C20, clause by clause):
+//  1. 2 * max datagram size <= cwnd <= MaxCongestionWindowPackets * max datagram size + one packet;
+//  2. cwnd never decreases on OnPacketAcked (nor on sending, RTT samples, idling or MTU raises);
+//  3. a loss of a packet that was sent before the previous loss-triggered reduction
+//     never reduces the window again (model ground truth: send ordinals);
+//  4. cwnd does not grow on an event whose bytes in flight were clearly not window-limited
+//     (less than half the window in use and more than one burst of room);
+//  5. over every interval between two observation points (the last 64 observations and up to
+//     12 older anchors as interval starts): bytes sent while HasPacingBudget was true
+//     <= max burst + 1.25 * max bandwidth estimate * elapsed;
+//  6. when HasPacingBudget is false, TimeUntilSend is not more than the timer granularity in
+//     the past (zero = "immediately" counts as the past); no panic for any RTT of the generator range.
+//
+// The model caller follows sent_packet_handler.go: packet numbers increase, ack-eliciting data
+// only while CanSend && HasPacingBudget (PTO probes and ACK-only packets excepted), per ACK
+// frame: RTT sample, MaybeExitSlowStart, OnCongestionEvent for newly lost packets, then
+// OnPacketAcked in ascending order, all with the bytes in flight from before the frame; only
+// packets below the largest acknowledged one are declared lost; lost MTU probes are not
+// congestion events; the datagram size is only raised. OnRetransmissionTimeout is never
+// called by the connection; the adversarial classes call it rarely (bounds only).
 // Overlay file of /verif; never part of /repo.
 
 import (
@@ -173,7 +196,7 @@ func cgGenAdversarial(r *KRng, sc *cgScenario, tier string) {
 	bigGaps := r.P(0.3)
 	withMTU := r.P(0.4)
 	withRTO := r.P(0.1)
-	longRamp := r.P(0.007) || (tier == "thorough" && r.P(0.1))
+	longRamp := r.P(0.007) || (tier == "thorough" && r.P(0.04))
 	rounds := 0
 	rttSample := func() int64 {
 		var v float64
@@ -345,9 +368,6 @@ type cgH struct {
 }
 
 func (h *cgH) fail(sig, format string, a ...any) {
-	if !h.res.Failed() {
-		h.res.Note(h.sc.Class + ": " + sig)
-	}
 	h.res.Fail(h.prefix+sig, format, a...)
 }
 
@@ -654,7 +674,7 @@ func (h *cgH) ackFrame(acked []*cgPkt, lostFn func() []*cgPkt, sample, ackDelay 
 		after := h.cwnd()
 		limited := !h.clearlyAppLimited(prior, before)
 		if h.res.KeepLog {
-			h.res.Logf("acked pn=%d size=%d prior=%d cwnd %d -> %d (%s) srtt=%v", p.pn, p.size, prior, before, after, ph, h.rtt.SmoothedRTT())
+			h.res.Logf("acked pn=%d size=%d prior=%d cwnd %d -> %d (%s) srtt=%v minRTT=%v", p.pn, p.size, prior, before, after, ph, h.rtt.SmoothedRTT(), h.rtt.MinRTT())
 		}
 		switch {
 		case after < before:
